@@ -1078,6 +1078,8 @@ def swhere(cond, a=None, b=None):
         if isinstance(c, SB):
             if isinstance(x, (SB, bool, np.bool_)) and isinstance(y, (SB, bool, np.bool_)):
                 return SB(z3.If(c.t, SB._l(x), SB._l(y)))
+            if any(isinstance(v, (float, np.floating)) and not math.isfinite(v) for v in (x, y)):
+                return x if bool(c) else y  # a nan / inf branch has no real term: decide the condition (forks when symbolic)
             return S(z3.simplify(z3.If(c.t, lift(x), lift(y))))
         return x if c else y
     return wrap(_el(f, 3)(cond, a, b))
@@ -1422,18 +1424,24 @@ class NPProxy:
     def arccos(x):
         if isinstance(x, S):
             return _UFUNC_HOOKS[np.arccos](x)
+        if isinstance(x, np.ndarray) and x.dtype == object and not isinstance(x, SymArray):
+            return wrap(_el(_UFUNC_HOOKS[np.arccos], 1)(x))  # object array of plain numbers (e.g. all-zero rows next to nan)
         return np.arccos(x)
 
     @staticmethod
     def cos(x):
         if isinstance(x, S):
             return _UFUNC_HOOKS[np.cos](x)
+        if isinstance(x, np.ndarray) and x.dtype == object and not isinstance(x, SymArray):
+            return wrap(_el(_UFUNC_HOOKS[np.cos], 1)(x))  # object array of plain numbers (e.g. all-zero rows next to nan)
         return np.cos(x)
 
     @staticmethod
     def sin(x):
         if isinstance(x, S):
             return _UFUNC_HOOKS[np.sin](x)
+        if isinstance(x, np.ndarray) and x.dtype == object and not isinstance(x, SymArray):
+            return wrap(_el(_UFUNC_HOOKS[np.sin], 1)(x))  # object array of plain numbers (e.g. all-zero rows next to nan)
         return np.sin(x)
 
     @staticmethod
